@@ -14,6 +14,7 @@ def handle (line : String) : String :=
   | "HASH" :: rest => Hash.hashLine rest
   | "DIFF" :: rest => Diff.diffLine rest
   | "DIFFX" :: rest => Diff.diffxLine rest
+  | "DIFFO" :: rest => DiffO.diffoLine rest
   | "DELTA" :: rest => Delta.deltaLine rest
   | "SEARCH" :: rest => Search.searchLine rest
   | "SAVEFS" :: rest => SaveFS.saveLine Wire.decStr Wire.encStr rest
